@@ -11,17 +11,20 @@ the value `put <text>` outputs (parser of C01 + the literal evaluator),
 printed order, `C08.Equal` = `vals.Equal`.  `L : Lib` = `unicode.IsPrint`,
 strconv's two shortest float formats, the address order of the type descriptors.
 -/
-import ElvProofs.C04.Final
+import ElvProofs.C04.Full
 open Go C08 C09 C04
 
 /-- A value of the fragment with ARBITRARY strings (what C04 quantifies over):
-exact numbers in elvish's own representation, floats under the strconv hypothesis. -/
+exact numbers in elvish's own representation, floats under C05's strconv
+hypothesis `C05.strconvOKAt` (the library hypothesis of `C05_float_roundtrip`,
+stated once for both properties; round 1's extra alphabet condition
+`floatHypOK` is derived from it: `C04_float_hypothesis_is_C05`). -/
 def C04_Frag (L : Lib) : Val → Prop
   | .nil | .bool _ | .str _ => True
   | .int i => C05.fitsInt i = true
   | .bigint i => C05.fitsInt i = false
   | .rat q => q.den ≠ 1
-  | .float b => floatHypOK L b = true
+  | .float b => C05.strconvOKAt L.fmt b.toNat = true
   | .list xs => ∀ x ∈ xs, C04_Frag L x
   | .map false kvs => ∀ p ∈ kvs, C04_Frag L p.1 ∧ C04_Frag L p.2
   | .map true _ | .ref _ _ => False
@@ -47,17 +50,70 @@ def C04_Holds (L : Lib) (v : Val) : Prop :=
     C04.repr L true (.map false kvs') indent = C04.repr L true (.map false kvs) indent)
 
 /-- The property at full strength on the model: every well-formed value of the
-fragment, every `unicode.IsPrint`.  NOT proved in full: the string leaf
-(`StrOK`: `parse.Quote s` is read back as `s`) is proved here only for
-printable-ASCII strings; for the other strings (non-ASCII runes, control
-characters, invalid UTF-8 — double-quoted escapes) it is C03's subject and
-stays a hypothesis (`C04_roundtrip_partial`). -/
+fragment — ARBITRARY byte strings (non-ASCII runes, control characters,
+invalid UTF-8, U+FFFD included) — and every `unicode.IsPrint`. -/
 def C04_full : Prop :=
   ∀ (L : Lib), (∀ s t, L.rank s = L.rank t → s = t) → ∀ v : Val, C04_Frag L v → WF v → C04_Holds L v
 
-/-- C04 for every value whose strings satisfy the string-leaf hypothesis
-(`GoodAll`: `StrOK` for every string inside, exact numbers canonical, floats
-under the strconv hypothesis), in plain AND pretty mode (every indent). -/
+/-- C04's local model of `parse.Quote` (`C04.quote`, what `repr` prints for a
+string) is C03's model `C03.Quote`, for every byte string and every `IsPrint`:
+the quoting property C03 and this property speak about the same function. -/
+theorem C04_quote_is_C03 (isPrint : Int → Bool) (s : Bytes) :
+    C03.Quote isPrint s = .ok (C04.quote isPrint s) :=
+  quote_eq_C03 isPrint s
+
+-- a concrete instance, evaluated on both models: `\xff`, newline, `'` ↦ `"\xff\n'"`
+example : C04.quote C03_asciiPrint [255, 10, 39] = [34, 92, 120, 102, 102, 92, 110, 39, 34] ∧
+    C03.Quote C03_asciiPrint [255, 10, 39] = .ok [34, 92, 120, 102, 102, 92, 110, 39, 34] := by decide
+
+/-- The string leaf, for EVERY byte string (round 1 had it as the hypothesis
+`StrOK`): wherever `parse.Quote s` stands in a source — as a list element /
+map value (`NormalExpr`) or as a map key (`LHSExpr`), in front of any text that
+cannot continue a primary — the parser reads exactly that text as one primary
+whose value is `s`, from any parser state satisfying the C01 invariant.
+Proved from C03's lemmas (`C03.DQ`/`dq_piece_step`, `scanLoop_some`, …). -/
+theorem C04_string_leaf (e : C01.Env) (s : Bytes) : StrOK e s := strOK_all s
+
+-- non-vacuity of `C04_string_leaf` (`PrimOK` has satisfiable hypotheses): the source `"\xff"]`,
+-- the parser standing at its beginning in front of `"\xff"` ++ `]`; `]` cannot continue a primary
+example : At { isPrint := fun _ => true, src := [34, 92, 120, 102, 102, 34, 93] }
+      { pos := 0, overEOF := 0, errors := [] } (C04.quote (fun _ => true) [255] ++ [93]) ∧
+    Stop (fun _ => true) Gen.C01Chars.NormalExpr [93] :=
+  ⟨⟨C01.inv_init _, by decide⟩, ⟨by decide⟩⟩
+
+/-- The float hypothesis of round 1 (`floatHypOK` = C05's `strconvOKAt` AND
+"`formatFloat64`'s text is made of number bytes", what the driver evaluates on
+Go's actual outputs for every float) is just C05's `strconvOKAt`: under it the
+text is accepted by `ParseNum` (`C05_float_roundtrip`), and whatever `ParseNum`
+accepts is written in the number alphabet (`C05.parseNum_all`). -/
+theorem C04_float_hypothesis_is_C05 (L : Lib) (b : UInt64) :
+    floatHypOK L b = C05.strconvOKAt L.fmt b.toNat :=
+  floatHypOK_eq_strconv L b
+
+-- non-vacuity: a library for which `0.0` satisfies the hypothesis (`0` / `0e+00`)
+example : C05.strconvOKAt (⟨fun _ => [48], fun _ => [48, 101, 43, 48, 48]⟩ : C05.Strconv) (0 : UInt64).toNat = true := by
+  decide +kernel
+
+/-- the fragment of `C04_full` unfolds as `FragLike` asks -/
+theorem C04_frag_like (L : Lib) : FragLike L (C04_Frag L) where
+  int i h := by simpa [C04_Frag] using h
+  bigint i h := by simpa [C04_Frag] using h
+  rat q h := by simpa [C04_Frag] using h
+  float b h := by simpa [C04_Frag] using h
+  list xs h := by simpa [C04_Frag] using h
+  map kvs h := by
+    intro p hp
+    rw [C04_Frag] at h
+    exact h p hp
+  fmap kvs h := by simp [C04_Frag] at h
+  ref a b h := by simp [C04_Frag] at h
+
+/-- The round trip with the leaf conditions as hypotheses (`GoodAll`: `StrOK`
+for every string inside, exact numbers canonical, floats under the strconv
+hypothesis), in plain AND pretty mode (every indent).  This is the induction
+on the value; round 1 stopped here because `StrOK` was proved for
+printable-ASCII strings only.  `C04_roundtrip` below discharges `GoodAll` for
+the whole fragment; the name is kept from round 1. -/
 theorem C04_roundtrip_partial (L : Lib) (hinj : ∀ s t, L.rank s = L.rank t → s = t) (v : Val)
     (hg : GoodAll L v) (hwf : WF v) : C04_Holds L v := by
   refine ⟨fun indent => evalLit_repr L v hg indent, fun hnf => (canonOK L v hwf hnf).eq, ?_⟩
@@ -65,8 +121,27 @@ theorem C04_roundtrip_partial (L : Lib) (hinj : ∀ s t, L.rank s = L.rank t →
   subst hv
   exact repr_map_perm_good L hinj kvs kvs' indent hg hwf hnf hperm
 
-/-- C04 with no hypothesis left on the strings, for values whose strings are
-printable ASCII (barewords and single-quoted strings). -/
+/-- **C04 at full strength**: for every library `L` (rank injective), every
+well-formed value `v` of the fragment with ARBITRARY byte strings — no
+hypothesis on the strings — (1) at every indent, `put <repr v>` parses without
+error and evaluates to `canon v`; (2) `canon v` is eq to `v` when `v` holds no
+NaN; (3) a map prints the same text for every order of its entries. -/
+theorem C04_roundtrip : C04_full := by
+  intro L hinj v hf hwf
+  exact C04_roundtrip_partial L hinj v (goodAll_of_frag (C04_frag_like L) v hf) hwf
+
+-- non-vacuity: `[&"\xff\n"=['é' '' "\ufffd" 'a b' (num 1)] &(num 1/2)=[&]]` is in the fragment
+-- (invalid UTF-8, a control character, a non-ASCII rune, the empty string, U+FFFD)
+example (L : Lib) : C04_Frag L (.map false [(.str [255, 10], .list [.str [0xC3, 0xA9], .str [],
+    .str [0xEF, 0xBF, 0xBD], .str [97, 32, 98], .int 1]), (.rat (mkRat 1 2), .map false [])]) := by
+  simp only [C04_Frag, List.mem_cons, List.not_mem_nil, or_false, forall_eq_or_imp, forall_eq, and_true]
+  refine ⟨by decide, ?_, fun _ h => h.elim⟩
+  show (mkRat 1 2).den ≠ 1
+  decide
+
+/-- C04 for values whose strings are printable ASCII (barewords and
+single-quoted strings) — round 1's unconditional theorem, now an instance of
+`C04_roundtrip` (kept; its own proof does not go through C03). -/
 theorem C04_roundtrip_ascii (L : Lib) (hinj : ∀ s t, L.rank s = L.rank t → s = t)
     (hp : IsPrintAscii L.isPrint) (v : Val) (hf : AsciiFrag L v) (hwf : WF v) : C04_Holds L v :=
   C04_roundtrip_partial L hinj v (goodAll_of_ascii hp v hf) hwf
